@@ -236,6 +236,15 @@ func (rl *RateLimitValidator) cleanupOldLimiters() {
 		lastAccess := limiterInfo.lastAccess
 		limiterInfo.mu.RUnlock()
 
+		// a limiter may only be forgotten once a fresh one would behave the same: while its bucket
+		// has not had time to refill, dropping it hands the client a second full burst
+		if limiterInfo.requestLimit > 0 {
+			refill := time.Duration(float64(rl.burstSize) * 60 / float64(limiterInfo.requestLimit) * float64(time.Second))
+			if lastAccess.After(time.Now().Add(-refill)) {
+				return true
+			}
+		}
+
 		if lastAccess.Before(cutoff) {
 			rl.ipLimiters.Delete(key)
 		}
